@@ -33,6 +33,20 @@ theorem C06_catalogue_enforced : ∀ e ∈ Spec.catalogueTable, rulesSubset e.2 
 /-- nothing undocumented is enforced: every rule `validate()` runs is in the catalogue (needed for the converse) -/
 theorem C06_catalogue_complete : ∀ e ∈ Gen.allClasses, rulesSubset e.2.flat (Spec.catalogue e.1) = true := by decide +kernel
 
+/-- the documented TYPE rules are strict about `bool`: the source's `_assert_type` (shape regenerated as
+`Gen.assertTypeBoolStrict`) accepts a bool only where `bool` itself is listed.  With the bare `isinstance` loop
+(`bool <: int`) this obligation fails, so the catalogue's "non-integer size/mtime/disc number" is not silently weakened
+together with the code (F22/F43). -/
+theorem C06_type_rule_bool_strict : Gen.assertTypeBoolStrict = true := by decide
+
+/-- … and therefore: whatever the class, a `type` rule that does not list `bool` refuses every object holding a bool in
+that field, with TypeError. -/
+theorem C06_type_rule_refuses_bool (customs : Str → Obj → Except Err Unit) (o : Obj) (f : Str) (ts : List PyType) (b : Bool)
+    (hf : o.get f = .bool b) (hts : ts.contains .bool = false) :
+    Rule.check customs o (.type f ts) = .error .typeError := by
+  simp only [Rule.check, hf, C06_type_rule_bool_strict, PyVal.assertTypeOk_strict_bool b hts]
+  rfl
+
 theorem C06_catalogue_sub (cls : String) : ∀ r ∈ Spec.catalogue cls, r ∈ genRules cls :=
   catalogue_mem_of_table C06_catalogue_enforced cls
 
